@@ -15,15 +15,16 @@ CONSTANTS MaxN,        \* sizes 1..MaxN
           BinAPats,    \* patterns of A for binary ops
           BinBPats,    \* patterns of B for binary ops
           Scalars,     \* scalar values
+          TinyBMaxN,   \* binary ops: the second operand also takes the "tiny" pattern (entries k * 2^-80) for sizes 1..TinyBMaxN
           TwoFull      \* two-operation sequences: FALSE = quick slice (n = 1..2 reduced shapes + a slice of n = 3),
                        \* TRUE = every storage shape of all three operands for n = 1..3
 
-MC_Scalars == {-1, 0, 1, 2}
-MC_AllPats == {"zero", "dist", "eye", "eyex", "eyel", "eyeu"}
-MC_QuickScalarPats == {"zero", "dist", "eye"}
+MC_Scalars == {-1, 0, 1, 2, TINY, NTINY, HUGE}      \* Graded.tla: 2^-80, -2^-80, 2^80
+MC_AllPats == {"zero", "dist", "eye", "eyex", "eyel", "eyeu", "eyet", "tiny"}
+MC_QuickScalarPats == {"zero", "dist", "eye", "tiny"}
 MC_QuickBinAPats == {"dist"}
 MC_QuickBinBPats == {"zero", "sq"}
-MC_ThoroughScalarPats == {"zero", "dist", "eye", "eyel", "eyeu"}
+MC_ThoroughScalarPats == {"zero", "dist", "eye", "eyel", "eyeu", "tiny", "eyet"}
 MC_ThoroughBinAPats == {"zero", "dist", "eye"}
 MC_ThoroughBinBPats == {"zero", "sq", "eye"}
 
@@ -64,7 +65,7 @@ TwoCShapes(n) ==
   ELSE IF n = 1 THEN {IdS, FuS, Band(0, 0)} ELSE {IdS, FuS, Band(0, 1), Band(1, 0)}
 TwoBin1(n) == IF TwoFull \/ n < 3 THEN BinOps ELSE {"add", "sub_assign"}
 TwoBin2 == IF TwoFull THEN {"add", "sub", "sub_assign_ref"} ELSE {"add", "sub"}
-TwoScal2 == IF TwoFull THEN Scalars ELSE {0, 2}
+TwoScal2 == IF TwoFull THEN Scalars ELSE {0, 2, TINY}
 TwoSizes == 1..(IF MaxN < 3 THEN MaxN ELSE 3)
 ShapeCfg(sh) == [ctor |-> BCtor(sh.kind), ml |-> sh.ml, mu |-> sh.mu]
 
@@ -96,7 +97,7 @@ InitScenario ==
     \/ \E pat \in PatsFor(cfg, n, ScalarPats) : \E op \in ScalarOps : \E s \in Scalars :
          sc = Sc(n, cfg, pat, op, 0, 0, s, NoB, "zero")
     \/ \E pat \in PatsFor(cfg, n, BinAPats) : \E op \in BinOps : \E b \in BShapes(n) :
-       \E bpat \in (IF b.kind = "I" THEN {"zero"} ELSE BinBPats) :
+       \E bpat \in (IF b.kind = "I" THEN {"zero"} ELSE BinBPats \cup (IF n <= TinyBMaxN THEN {"tiny"} ELSE {})) :
          sc = Sc(n, cfg, pat, op, 0, 0, 0, b, bpat)
 
 NoRes == [panic |-> FALSE, mat |-> NoMat, val |-> FALSE]
